@@ -130,7 +130,7 @@ STREAM = {
     "name": "stress", "pkg": "./internal/rules", "test": "TestVerifC07",
     "overlay": {"internal/rules/zz_verif_c07_test.go": "c07/c07_test.go"},
     "eval_module": "Run.Eval_C07", "check_term": "check",
-    "n_quick": 1500, "n_thorough": 30000, "findings": {}, "race": True, "shard": 300, "timeout": 2400,
+    "n_quick": 1500, "n_thorough": 20000, "findings": {}, "race": True, "shard": 300, "timeout": 2400,
 }
 
 
@@ -339,7 +339,7 @@ P = {
                   "between invocation and response, and at quiescence the guarded state IS the final state of the sequential history "
                   "(no lost update). The skeleton of the repository is REGENERATED from internal/rules/repository_impl.go (and the "
                   "mutating-method table from internal/x/radixtree) on every run and must pass `Example repo_skel_wf : wf_skel "
-                  "repo_wlock repo_skel = true`. Supporting stream: ~1500 (quick) / 30000 (thorough) concurrent histories of the real "
+                  "repo_wlock repo_skel = true`. Supporting stream: ~1500 (quick) / 20000 (thorough) concurrent histories of the real "
                   "repository under `go test -race`, each checked in Coq to be linearizable w.r.t. the sequential repository machine "
                   "repo_apply (atomic lookups, no lost update, final state).",
     "level_note": "PARTIAL. Proved about the skeleton semantics, not about Go: the Go memory model and scheduler are not modelled "
